@@ -139,7 +139,73 @@ def _judge1(case, fi, fm):
         if finds:
             return 'view %d is not the OCI overlay of layers 0..%d (%s; failing clauses of H: %s)' % (j, j, d, ','.join(failing)), CLASS_KEY[finds[0]]
         # only ill-formed tars (duplicate names, entries below a file, ...): outside the quantifier
-    return None, None
+    return _squash_verdict(case, fi, wf)
+
+
+def _clean(name):
+    """path.Clean + TrimPrefix "/" as the loader does; None for names it skips"""
+    out = []
+    for c in name.split('/'):
+        if c in ('', '.'):
+            continue
+        if c == '..':
+            if out:
+                out.pop()
+            elif not name.startswith('/'):
+                return None
+            continue
+        out.append(c)
+    return out or None
+
+
+def _squash_verdict(case, fi, wf):
+    """the squashed on-disk unpacking (unpack.UnpackSquashed of the same image) holds the regular files of the final view,
+    with the same content — judged where H holds for the final view and the image has no links (the unpacker writes
+    through links and drops dangling ones; C06/C17 territory)"""
+    sq = fi.get('squash')
+    if sq in (None, 'na', 'err') or not wf or wf[-1] != '1':
+        return None, None
+    t = case.split(' ')
+    layers = [[e.split(':') for e in (l.split(';') if l not in ('-', '') else [])] for l in t[5].split('|')]
+    if any(e[0] in 'sh' for l in layers for e in l):
+        return None, None
+    last = fi['walk'].split('|')[-1]
+    view = sorted(x.split(':')[0] + ':' + x.split(':')[-1] for x in _items(last) if x.split(':')[1] == 'f')
+    got = _items(sq)
+    if view == got:
+        return None, None
+    d = sorted(set(view) ^ set(got))
+    text = 'the squashed unpacking differs from the final view in regular files: ' + ','.join(d[:4])
+    names = [[(e[0], binascii.unhexlify(e[1]).decode('latin1') if e[1] != '-' else '') for e in l] for l in layers]
+    if any(n.startswith('/') for l in names for _, n in l):
+        return text + ' (entry names written with a leading "/")', 'C04/squash-absolute-names'
+    under, nondir, explicit = [], [], []
+    odd = False
+    for l in names:
+        u, nd, ex = set(), set(), set()
+        for typ, n in l:
+            c = _clean(n)
+            if c is None:
+                continue
+            base = c[-1]
+            if base.startswith('.wh.'):
+                if base in ('.wh.', '.wh..', '.wh...') or typ == 'd':
+                    odd = True
+                c = c[:-1] + [base[4:]]
+            else:
+                ex.add('/'.join(c))
+                if typ != 'd':
+                    nd.add('/'.join(c))
+            for k in range(1, len(c)):
+                u.add('/'.join(c[:k]))
+        under.append(u); nondir.append(nd); explicit.append(ex)
+    for k in range(len(names)):
+        for k0 in range(k):
+            if any(p in under[k] and p not in explicit[k] for p in nondir[k0]):
+                return text + ' (a lower layer\'s file where an upper layer only implies a directory)', 'C04/squash-file-under-implied-directory'
+    if odd:
+        return None, None              # whiteouts of "", "." or "..", directories named .wh.x: no claim
+    return text, None
 
 
 def _parallel_driver(ctx, exe, cases, timeout=3600, procs=12):
@@ -216,6 +282,10 @@ def run(ctx):
     lib.standard_stream(ctx, gen='c04gen', driver='drv_c04', gen_args=['-seed', str(ctx.seed), '-n', str(n), '-tier', ctx.tier],
                         compare_keys=['err', 'nv', 'walk', 'look'], nontrivial=nontrivial, oracle=oracle, classify=classify,
                         finding_class=finding_class, sample_every=997, strict_known=True)
+    d = ctx.dist
+    ctx.extra['H_split'] = ('images (load ok) whose views all satisfy H: %d; some views: %d; none: %d; load errors: %d. 25%% of the random images come from a '
+                            'dedicated stream (simulated build steps, explicit parents, a deleted path never re-created) built to satisfy H in every view' % (
+                                d.get('H=all', 0), d.get('H=some', 0), d.get('H=none', 0), d.get('load-error', 0)))
     ctx.extra['c10_layer_bytes'] = ('every implementation reply is also checked for: no file item of size >= MaxFileBytes in any walk/lookup, '
                                     'largest regular file below Image.ExtractDir <= MaxFileBytes (field maxdisk)')
     if not proofs_ok:
